@@ -21,6 +21,9 @@ ALPHAS = {
 
 def plan(tier):
     t = [{'kind': 'ops'}, {'kind': 'tables'}, {'kind': 'wideops'}]
+    for n in (1, 2, 3, 4):
+        for window in (None, 4, 3, 2):
+            t.append({'kind': 'prefix', 'n': n, 'window': window, 'Ks': list(range(2, 15 if window is None else 25))})
     for pat in space.DEEP_PATTERNS:
         for L in space.DEEP_LENGTHS[tier]:
             for st in ('fwd', 'rev'):
@@ -50,7 +53,7 @@ def plan(tier):
 
 def describe(tier):
     return {
-        'rule': 'requery: on F(2,2)/F(3,2) over {AND,XOR,GT,NOT}, F(1,2,FULL), F(2,1,FULL): one query with a value vector, one public mutation (input order reversed by order_inputs / set_inputs, two gate or input labels exchanged, first gate rebuilt under its label), the same query again - for five entry points, every vector; wide: every n-ary type with 255..300 operands over a stated Boolean operand alphabet; deep: chains of 1200/3000 (thorough 7000) gates in six gate-type patterns, both storage orders, every entry point x all 8 assignments; E1: every circuit of F(n,k,A) (all gate types/arities, operand tuples with '
+        'rule': 'prefix: densely shared circuits (gate k reads all / the last 2-4 earlier nodes, up to 14 / 24 gates, 1-4 inputs), every entry point x all assignments; requery: on F(2,2)/F(3,2) over {AND,XOR,GT,NOT}, F(1,2,FULL), F(2,1,FULL): one query with a value vector, one public mutation (input order reversed by order_inputs / set_inputs, two gate or input labels exchanged, first gate rebuilt under its label), the same query again - for five entry points, every vector; wide: every n-ary type with 255..300 operands over a stated Boolean operand alphabet; deep: chains of 1200/3000 (thorough 7000) gates in six gate-type patterns, both storage orders, every entry point x all 8 assignments; E1: every circuit of F(n,k,A) (all gate types/arities, operand tuples with '
         'repeats, order significant) x every output policy (none, all sequences of <=2 nodes '
         'incl. inputs and repeats, all sinks) x all 2^n assignments x every evaluation entry '
         'point (for n+k<=3 also on copy.deepcopy / pickle copies of the circuit object); operator tables on all Boolean operand vectors (arity<=4 for n-ary); storage '
@@ -367,8 +370,31 @@ def check_tables(acc):
                 want = refmodel.gate_fn(t, list(ops), mask)
                 if got != want:
                     acc.violation('subcircuit.eval_pattern/wrong-value', case, f'got {got} expected {want}')
+    # wider cones (3..8 leaves, patterns of 8..256 bits): operands drawn from the leaf patterns, their
+    # complements, 0, all-ones and two mixed patterns
+    for nin in range(3, 9):
+        po = sc._PatternOperations(nin)
+        mask = (1 << (1 << nin)) - 1
+        if po.max_pattern != mask:
+            acc.violation('subcircuit._PatternOperations/max_pattern', {'n': nin}, hex(po.max_pattern))
+        leaves = [sum(((i >> j) & 1) << i for i in range(1 << nin)) for j in range(nin)]
+        pats = leaves + [mask ^ v for v in leaves[:2] + leaves[-1:]] + [0, mask, leaves[0] & leaves[-1], leaves[1] ^ leaves[-1] ^ mask]
+        for t in supported:
+            ar = 1 if t in refmodel.UNARY else 2
+            for ops in itertools.product(pats, repeat=ar):
+                acc.states += 1
+                acc.transitions += 1
+                acc.traces += 1
+                try:
+                    got = po.eval_pattern(list(ops), t)
+                except Exception as e:  # noqa: BLE001
+                    acc.violation('subcircuit.eval_pattern/raises', {'n': nin, 'type': t, 'patterns': [hex(o) for o in ops]}, repr(e))
+                    continue
+                want = refmodel.gate_fn(t, list(ops), mask)
+                if got != want:
+                    acc.violation('subcircuit.eval_pattern/wrong-value', {'n': nin, 'type': t, 'patterns': [hex(o) for o in ops]}, f'got {hex(got)} expected {hex(want)}')
     # _generate_inputs_tt: pattern of input j has bit i = (i >> j) & 1
-    for size in range(0, 5):
+    for size in range(0, 9):
         got = sc._generate_inputs_tt(size)
         want = [sum(((i >> j) & 1) << i for i in range(1 << size)) for j in range(size)]
         acc.states += 1
@@ -494,10 +520,21 @@ def check_deep(acc, pattern, L, storage):
     """Every evaluation entry point on a chain of L gates (deeper than the interpreter's recursion limit),
     every assignment of its three inputs, both storage orders."""
     c, net = space.deep_chain(pattern, L, storage)
+    return _check_net(acc, c, net, {'deep_chain': pattern, 'length': L, 'storage': storage}, ('deep', pattern, L))
+
+
+def check_prefix(acc, n, K, ti, window):
+    """densely shared circuits (gate k reads all / the last few earlier nodes): every entry point, all assignments"""
+    from vmc.props import c15
+
+    net = c15.prefix_net(n, K, c15.PREFIX_TYPES[ti], window)
+    return _check_net(acc, space.build_from_net(net), net, {'prefix_circuit': [n, K, ti, window]}, ('prefix', n, K, window))
+
+
+def _check_net(acc, c, net, case, tag):
     ref = net.tables()
     n = len(net.inputs)
     asg = refmodel.assignments(n)
-    case = {'deep_chain': pattern, 'length': L, 'storage': storage}
     acc.states += 1
     acc.traces += 1
     olabs = net.outputs
@@ -533,7 +570,7 @@ def check_deep(acc, pattern, L, storage):
         ok, res = guarded(acc, 'evaluate_circuit_outputs', case, c.evaluate_circuit_outputs, dict(a))
         if ok and any(bad_bool(res.get(o), w) for o, w in zip(olabs, want)):
             acc.violation('evaluate_circuit_outputs/wrong-value', case, f'x={x} got {[res.get(o) for o in olabs]!r}')
-        mid = f'c{L // 3}'
+        mid = [g_ for g_ in net.gates if g_ not in net.inputs][len(net.gates) // 3 % max(1, len(net.gates) - n)]
         ok, res = guarded(acc, 'evaluate_circuit', case, lambda: c.evaluate_circuit(dict(a), outputs=[mid, olabs[0]]))
         if ok and (bad_bool(res.get(mid), bool((ref[mid] >> j) & 1)) or bad_bool(res.get(olabs[0]), want[0])):
             acc.violation('evaluate_circuit/wrong-value', case, f'x={x} outputs=[{mid}, {olabs[0]}]')
@@ -541,7 +578,7 @@ def check_deep(acc, pattern, L, storage):
             ok, v = guarded(acc, 'evaluate_at', case, c.evaluate_at, list(x), i)
             if ok and bad_bool(v, w):
                 acc.violation('evaluate_at/wrong-value', case, f'x={x} output #{i}: {v!r}')
-    acc.outcome('gate_tt_signature', ('deep', pattern, L, tuple(exp_out)))
+    acc.outcome('gate_tt_signature', tag + (tuple(exp_out),))
     acc.sample(case)
 
 
@@ -658,6 +695,10 @@ def run_task(task, acc):
         c15.check_wide_ops(acc, boolean_only=True)
     elif kind == 'deep':
         check_deep(acc, task['pattern'], task['L'], task['storage'])
+    elif kind == 'prefix':
+        for K in task['Ks']:
+            for ti in range(3):
+                check_prefix(acc, task['n'], K, ti, task['window'])
     elif kind == 'tables':
         check_tables(acc)
     elif kind == 'circ':
@@ -680,6 +721,8 @@ def replay(case, acc):
         return run_task(case['task'], acc)
     if 'deep_chain' in case:
         return check_deep(acc, case['deep_chain'], case['length'], case['storage'])
+    if 'prefix_circuit' in case:
+        return check_prefix(acc, *case['prefix_circuit'])
     if 'requery' in case:
         n, gates, _ = space.spec_from_json(case)
         return check_requery(n, gates, acc)
